@@ -200,7 +200,12 @@ def run(ctx, progs):
             if ok:
                 t = deep_strip(b.call_term(sc[0].t, sc[0].pos, 0))
                 g = "ptr_guard_mut" if "read" in nm else "ptr_guard"
-                arg_ok = match(C(sysc, C("AsRawFd::as_raw_fd", P(1)), ANY, C("VolatileSlice::len", P(2))), t, {}) and \
+                # the descriptor is `fd.as_raw_fd()` of the first parameter — taken here, or already taken by every caller when the
+                # helper receives a RawFd (then the forwarder rule below checks that each caller passes self.as_raw_fd())
+                fd_pat = C("AsRawFd::as_raw_fd", P(1))
+                if b.local_ty(1).s in ("i32", "std::os::fd::RawFd"):
+                    fd_pat = P(1)
+                arg_ok = match(C(sysc, fd_pat, ANY, C("VolatileSlice::len", P(2))), t, {}) and \
                     any(is_call(x, g) and unref(x[2][0])[:2] == ('param', 2) for x in subterms(unref(t[2][1])))
                 neg_ok = False
                 ok_ok = False
@@ -224,7 +229,10 @@ def run(ctx, progs):
                 t = deep_strip(rt[0][1]) if len(rt) == 1 else None
                 if t is not None and t[0] == 'call' and canon(t[1]).startswith("io::") and canon(t[1]).endswith("_volatile_raw_fd"):
                     fwd += 1
-                    ok = match(C(canon(t[1]).split("::")[-1], P(1), P(2)), t, {}) and ("read" in b.name) == ("read" in t[1])
+                    hb = prog.by_id.get(t[1])
+                    takes_raw = hb is not None and hb.local_ty(1).s in ("i32", "std::os::fd::RawFd")
+                    first = C("as_raw_fd", P(1)) if takes_raw else P(1)
+                    ok = match(C(canon(t[1]).split("::")[-1], first, P(2)), t, {}) and ("read" in b.name) == ("read" in t[1])
                     ctx.ob("R13.5.fd_forwarder", b.key, ok, b.where(), f"forwards (self, buf) to {canon(t[1])}")
         ctx.floor("R13.adapters", n, 10)
         ctx.floor("R13.5.fd_forwarders", fwd, 10 if cfg != "MIN" else 0)
